@@ -1,0 +1,43 @@
+//go:build verif
+
+package state
+
+import "github.com/syndtr/goleveldb/leveldb"
+
+// Hooks for the deterministic-simulation harness in /verif (build tag "verif").
+// They add no behaviour to the shipped build.
+
+// SimDB returns the LevelDB handle currently used by the state.
+func (s *LevelDBState) SimDB() *leveldb.DB {
+	s.Lock()
+	defer s.Unlock()
+	return s.stateDb
+}
+
+// SimPath returns the directory of the LevelDB currently used by the state.
+func (s *LevelDBState) SimPath() string {
+	s.Lock()
+	defer s.Unlock()
+	return s.stateDbPath
+}
+
+// SimClose closes the underlying LevelDB so that the same directory can be
+// reopened inside one process (simulated process restart).
+func (s *LevelDBState) SimClose() error {
+	s.Lock()
+	defer s.Unlock()
+	return s.stateDb.Close()
+}
+
+// SimSnapshot returns a byte-exact copy of every key/value pair.
+func (s *LevelDBState) SimSnapshot() (map[string][]byte, error) {
+	s.Lock()
+	defer s.Unlock()
+	out := make(map[string][]byte)
+	iter := s.stateDb.NewIterator(nil, nil)
+	defer iter.Release()
+	for iter.Next() {
+		out[string(iter.Key())] = append([]byte(nil), iter.Value()...)
+	}
+	return out, iter.Error()
+}
